@@ -136,6 +136,7 @@ func reexec(o *options, res *Reexec) {
 
 	evsw := gtypes.NewEventSwitch()
 	evsw.Start()
+	commitRes := map[int64]gtypes.CommitResult{} // what the application itself returned for each block
 	// the listeners Angine.ConnectApp installs
 	gtypes.AddListenerForEvent(evsw, "angine", gtypes.EventStringHookExecute(), func(ed gtypes.TMEventData) {
 		data := ed.(gtypes.EventDataHookExecute)
@@ -152,6 +153,7 @@ func reexec(o *options, res *Reexec) {
 		hk := app.GetAngineHooks().OnCommit
 		hk.Sync(data.Height, data.Round, data.Block)
 		if r, ok := hk.Result().(gtypes.CommitResult); ok {
+			commitRes[data.Height] = r
 			data.ResCh <- r
 		} else {
 			data.ResCh <- gtypes.CommitResult{}
@@ -180,6 +182,11 @@ func reexec(o *options, res *Reexec) {
 		}
 		cmp(h, "AppHash", "header", blk.Header.AppHash, st.AppHash)
 		cmp(h, "ReceiptsHash", "header", blk.Header.ReceiptsHash, st.ReceiptsHash)
+		if r, ok := commitRes[h-1]; ok {
+			// the next header carries the application's own results of the block before, whatever the state machine keeps
+			cmp(h, "AppHash", "header-vs-application-result", blk.Header.AppHash, r.AppHash)
+			cmp(h, "ReceiptsHash", "header-vs-application-result", blk.Header.ReceiptsHash, r.ReceiptsHash)
+		}
 		cmp(h, "ValidatorsHash", "header", blk.Header.ValidatorsHash, st.Validators.Hash())
 		cmp(h, "LastBlockID", "header", blk.Header.LastBlockID.Hash, st.LastBlockID.Hash)
 		if err := st.ApplyBlock(evsw, blk, meta.PartsHeader, gemmill.MockMempool{}, 0); err != nil {
